@@ -6,7 +6,7 @@ sys.path.insert(0, os.path.join(os.path.dirname(os.path.abspath(__file__)), ".."
 from vlib import multigen as M
 
 if __name__ == "__main__":
-    hit, text = {"piece": M.piece, "nonlast": M.nonlast, "vlog": M.vlog_rotated, "tornfirst": M.torn_first, "vlogheader": M.vlog_header, "vlogtorn": M.vlog_torn_header, "tornheader": M.torn_header_tail, "admission": M.admission_boundary, "repairappend": M.repair_then_append, "relograce": M.relog_race}[sys.argv[1]]()
+    hit, text = {"piece": M.piece, "nonlast": M.nonlast, "vlog": M.vlog_rotated, "tornfirst": M.torn_first, "vlogheader": M.vlog_header, "vlogtorn": M.vlog_torn_header, "tornheader": M.torn_header_tail, "admission": M.admission_boundary, "repairappend": M.repair_then_append, "relogwindow": M.relog_window, "relograce": M.relog_race}[sys.argv[1]]()
     print(text)
     print("REPRODUCED" if hit else "NOT REPRODUCED")
     sys.exit(1 if hit else 0)
